@@ -42,6 +42,18 @@ ParBSRMatrix* init_mat(ParBSRMatrix* A, T* B)
     part->num_shared = 0;
     return C;
 }
+// C = A^T * B : the row blocks of C are the column blocks of A, its column
+// blocks those of B (collective: a Partition is built)
+template <typename T, typename U>
+ParCSRMatrix* init_matrix_T(T* B, U* A)
+{
+    Partition* rows = A->partition->transpose();
+    Partition* part = new Partition(rows, B->partition);
+    delete rows;
+    ParCSRMatrix* C = new ParCSRMatrix(part);
+    part->num_shared = 0;
+    return C;
+}
 template <typename T, typename U>
 ParCSRMatrix* init_matrix(T* A, U* B)
 {
@@ -181,7 +193,7 @@ ParCSRMatrix* ParCSRMatrix::mult_T(ParCSCMatrix* A, bool tap)
     }
 
     // Initialize C (matrix to be returned)
-    ParCSRMatrix* C = init_matrix(this, A);;
+    ParCSRMatrix* C = init_matrix_T(this, A);
 
     CSRMatrix* Ctmp = mult_T_partial(A);
     std::vector<char> send_buffer;
@@ -215,7 +227,7 @@ ParCSRMatrix* ParCSRMatrix::tap_mult_T(ParCSCMatrix* A)
     }
 
     // Initialize C (matrix to be returned)
-    ParCSRMatrix* C = init_matrix(this, A);
+    ParCSRMatrix* C = init_matrix_T(this, A);
 
     CSRMatrix* Ctmp = mult_T_partial(A);
     std::vector<char> send_buffer;
